@@ -171,8 +171,8 @@ def _run_job(job):
     (sid, rules, data, T, guided, refs, kind, parts, cwl, idle, extra_total) = job
     spec = U.build_type(T) if guided else None
     st = _STREAMS[sid]
-    ev, detail = S.run_schedule(STREAMING[rules], data, spec, refs, st.matcher(), kind, parts, cwl, idle)
-    return ev, detail
+    ev, detail, mech = S.run_schedule(STREAMING[rules], data, spec, refs, st.matcher(), kind, parts, cwl, idle)
+    return ev, detail, mech
 
 
 _STREAMS = {}
@@ -194,13 +194,13 @@ def run_streams(ctx, streams, jobs_of, cansay=True):
         for (kind, parts, cwl, idle, upto) in jobs_of(st):
             jobs.append((st.sid, st.rules, st.data[:upto], st.T, st.guided, refs, kind, parts, cwl, idle, upto))
     results = core.pmap(_run_job, jobs, chunksize=64)
-    for job, (ev, detail) in zip(jobs, results):
+    for job, (ev, detail, mech) in zip(jobs, results):
         sid, rules, data, T, guided, refs, kind, parts, cwl, idle, upto = job
         st = _STREAMS[sid]
         tid += 1
         complete = [e for e in st.ends if e <= upto]
         traces.append({'id': tid, 'ends': complete, 'extra': upto - (complete[-1] if complete else 0), 'cansay': cansay,
-                       'ev': ev})
+                       'ev': ev, 'mech': mech})
         meta[tid] = {'stream': st.label, 'sid': sid, 'rules': rules, 'guided': guided, 'kind': kind, 'parts': parts,
                      'close_with_last': cwl, 'idle': idle, 'data': data.hex(), 'ends': st.ends, 'T': T,
                      'detail': detail, 'upto': upto}
@@ -213,7 +213,7 @@ def judge_streams(ctx, sc, traces, name='strace', timeout=3000):
     with open(path, 'w') as f:
         for t in traces:
             nev += len(t['ev']) // 3
-            f.write(json.dumps(t, separators=(',', ':')) + '\n')
+            f.write(json.dumps({k: v for k, v in t.items() if k != 'mech'}, separators=(',', ':')) + '\n')
     cpath = sc.file(name + '.cfg')
     tlc.write_cfg(cpath, spec='TraceSpec')
     r = tlc.run(os.path.join(tlc.SPEC, 'Trace_Stream.tla'), cpath, sc, env={'TRACE_FILE': path}, timeout=timeout,
@@ -231,6 +231,44 @@ def judge_streams(ctx, sc, traces, name='strace', timeout=3000):
         if isinstance(p, list) and len(p) == 4 and p[0] == 'DEV':
             devs[(p[1], p[2])] = sorted(p[3])
     return sorted(set(rejects)), devs
+
+
+def judge_mech(ctx, sc, traces, name='mtrace', timeout=3000):
+    """mechanism-level acceptor (spec/Trace_Mech.tla) over the read/seek/mark events of the K3 runs"""
+    mt = [{'id': t['id'], 'ends': t['ends'], 'ev': t['mech']} for t in traces if t.get('mech')]
+    if not mt:
+        return [], 0
+    # self-test: drop the rewind after a short read / move a mark
+    st = []
+    for t in mt:
+        ev = t['ev']
+        for i in range(0, len(ev) - 4, 4):
+            if ev[i] == 2 and ev[i + 1] > 0 and 0 < ev[i + 2] < ev[i + 1] and ev[i + 4] == 3 and len(st) < 2:
+                c = {'id': SELFTEST_BASE + len(st), 'ends': t['ends'], 'ev': ev[:i + 4] + ev[i + 8:]}
+                st.append(c)
+                break
+        if len(st) >= 2:
+            break
+    path = sc.file(name + '.ndjson')
+    nev = 0
+    with open(path, 'w') as f:
+        for t in mt + st:
+            nev += len(t['ev']) // 4
+            f.write(json.dumps(t, separators=(',', ':')) + '\n')
+    cpath = sc.file(name + '.cfg')
+    tlc.write_cfg(cpath, spec='TraceSpec')
+    r = tlc.run(os.path.join(tlc.SPEC, 'Trace_Mech.tla'), cpath, sc, env={'TRACE_FILE': path}, timeout=timeout, heap='16g')
+    ctx.add_tlc(name, r)
+    if not r.ok:
+        raise core.Machinery('mechanism acceptor failed: %s\n%s' % (r.errors[:3], r.out[-2500:]))
+    if r.distinct != nev + len(mt) + len(st):
+        raise core.Machinery('mechanism acceptor consumed %d states, expected %d' % (r.distinct, nev + len(mt) + len(st)))
+    rej = sorted({(p[1], p[2], p[3]) for p in r.printed if isinstance(p, list) and len(p) == 4 and p[0] == 'REJECT'})
+    if st and {x[0] for x in rej if x[0] >= SELFTEST_BASE} != {t['id'] for t in st}:
+        raise core.Machinery('mechanism acceptor self-test failed (a dropped rewind was not rejected)')
+    ctx.extra['mechanism_acceptor'] = '%d K3 executions, %d read/seek/mark/poll events, self-test: %d traces with the rewind removed rejected' % (
+        len(mt), nev, len(st))
+    return [x for x in rej if x[0] < SELFTEST_BASE], nev
 
 
 SELFTEST_BASE = 10 ** 8
@@ -285,8 +323,18 @@ def finish_streams(ctx, sc, traces, meta, clauses=None, name='strace'):
             clause, j, m['stream'], m['kind'], m['parts'], m['close_with_last'], m['idle'], m['data'][:60])
         ctx.report(what, f, {'prop': ctx.prop, 'kind': 'stream', 'meta': m, 'trace': tr, 'event': j, 'clause': clause})
         bad.add(tid)
+    mrej, mev = judge_mech(ctx, sc, traces, name=name + '_mech')
+    for tid, j, clause in mrej:
+        m = meta[tid]
+        f = {'clause': clause, 'layer': 'mechanism', 'kind': m['kind'], 'rules': m['rules'], 'guided': m['guided'],
+             'kinds': sorted(P.kinds_in(m['T']))}
+        tr = [t for t in traces if t['id'] == tid][0]
+        ctx.report('%s at mechanism event %d: stream %s parts=%s close_with_last=%s data=%s' % (
+            clause, j, m['stream'], m['parts'], m['close_with_last'], m['data'][:60]), f,
+            {'prop': ctx.prop, 'kind': 'stream-mechanism', 'meta': m, 'mech_events(kind,a,b,c)*': tr['mech'], 'event': j, 'clause': clause})
+        bad.add(tid)
     ctx.traces += len(traces) - len(bad)
-    ctx.evaluations += sum(len(t['ev']) // 3 for t in traces)
+    ctx.evaluations += sum(len(t['ev']) // 3 for t in traces) + mev
     for tid, m in meta.items():
         ctx.keys.add((m['stream'], m['kind'], len(m['parts']), m['close_with_last'], m['idle']))
     for t in traces[:2] + traces[len(traces) // 2:len(traces) // 2 + 2]:
